@@ -1,5 +1,5 @@
 """C07  Warn mode and strict mode agree up to the first problem (relational oracle over the fault spaces)."""
-from .. import cases, faultspace, impl, loader, oracle
+from .. import bscope, cases, faultspace, impl, loader, oracle
 from ..runner import Acc
 
 LEVEL = "fault_enumeration"
@@ -10,6 +10,10 @@ ASSUMPTIONS = [
 ]
 
 
+B_STRICT = ()
+B_WARN = ('C07',)
+
+
 def units(tier, seed):
     us = cases.fault_units(tier, seed, with_prims=True)
     for u in us:
@@ -17,6 +21,7 @@ def units(tier, seed):
         if tier == "quick" and u["kind"] != "struct":
             u["value_valid"] = False  # quick: frames without the in-range substitutions (C04 runs them in strict mode)
             u["subst_alphabet"] = (0x00, 0xFF)  # quick: frames get the two extreme substitute bytes, structures all ten
+    us += bscope.units(tier, seed)
     return us
 
 
@@ -77,6 +82,8 @@ def check_input(acc, root, m, cc, enc, d):
 
 
 def run_unit(unit):
+    if unit["kind"] == "bscope":
+        return bscope.run_b_unit(unit, strict_own=B_STRICT, warn_props=B_WARN)
     acc = Acc()
     loader.load()
     fams = ["size", "value", "length", "subst"]
@@ -116,6 +123,8 @@ def finish(acc, tier, seed):
 
 
 def replay(case):
+    if case.get("harness") == "bytestep":
+        return bscope.replay(case, strict_own=B_STRICT, warn_props=B_WARN)
     acc = Acc()
     loader.load()
     check_input(acc, case["root"], bytes.fromhex(case["input"]), case.get("cc"), case.get("enc"), lambda: case)
